@@ -46,7 +46,9 @@ struct Deviation {
 	                                  // 3 ignored: the `who` of the answer is replaced by the end marker, the party goes on normally
 	int opening = 0;                  // opening of the own share: 0 correct, 1 mismatching (+1), 2 none (silent from there on), 4 out of range (a_i + q)
 	bool bad_recon = false;           // the shares this party contributes to public reconstructions are broadcast as share + 1
-	bool active() const { return !wrong.empty() || !drop.empty() || answer || opening || bad_recon; }
+	int dss_step = 0;                 // DSS::Sign: deviate inside Step 1d (1) or Step 2d (2): honest code, one corrupted broadcast
+	int dss_mode = 0;                 // 0: the first commitment of the own VSS of v_i is broadcast as A+1; 1: the first ZNPoK response as z+1
+	bool active() const { return !wrong.empty() || !drop.empty() || answer || opening || bad_recon || dss_step; }
 	std::string str() const { std::string r = "wrong={"; for (size_t w : wrong) r += std::to_string(w) + " "; r += "} drop={"; for (size_t w : drop) r += std::to_string(w) + " ";
 		return r + "} answer=" + std::to_string(answer) + " opening=" + std::to_string(opening); }
 };
@@ -70,14 +72,15 @@ class TamperBroadcast : public aiounicast_select {
 public:
 	CachinKursawePetzoldShoupRBC **rbcp; bool silent = false;
 	std::function<int(mpz_srcptr, mpz_ptr)> decide;     // payload -> 0 pass / 1 replaced / 2 silent from here on
+	std::function<int(const std::vector<mpz_srcptr> &, mpz_ptr)> decide_full;   // the same with the whole r-send (ID, j, s, r-send, payload)
 	TamperBroadcast(CachinKursawePetzoldShoupRBC **r, size_t n_in, size_t j_in, const std::vector<int> &fi, const std::vector<int> &fo, const std::vector<std::string> &key, size_t sched, time_t T)
 		: aiounicast_select(n_in, j_in, fi, fo, key, sched, T), rbcp(r) {}
 	using aiounicast_select::Send;
 	bool Send(const std::vector<mpz_srcptr> &m, const size_t i_in, time_t timeout) override {
 		if (*rbcp && m.size() == 5 && mpz_cmp(m[3], (*rbcp)->r_send) == 0 && mpz_cmp(m[1], (*rbcp)->whoami) == 0) {
 			if (silent) return true;
-			if (decide) {
-				mpz_t rep; mpz_init(rep); int d = decide(m[4], rep);
+			if (decide || decide_full) {
+				mpz_t rep; mpz_init(rep); int d = decide_full ? decide_full(m, rep) : decide(m[4], rep);
 				if (d == 2) { silent = true; mpz_clear(rep); return true; }
 				if (d == 1) { std::vector<mpz_srcptr> m2(m); m2[4] = rep; bool r = aiounicast_select::Send(m2, i_in, timeout); mpz_clear(rep); return r; }
 				mpz_clear(rep);
